@@ -922,7 +922,7 @@ func nTestIsBoundary(cond ssa.Value, hdrLen int64) bool {
 // return may hand its error on while it may still be io.EOF (every scan treats io.EOF as the clean
 // end of the segment).
 func (p *Prog) payloadReadObligation(ea *ErrAtoms, fn *ssa.Function, label string, props []string) Ob {
-	ob := Ob{Rule: "R10", Inst: "c2:payload-read:" + label, Props: props, Pos: p.posStr(fn.Pos()), Func: funcLabel(fn), Nontrivial: true}
+	ob := Ob{Rule: "R10", Inst: "c2:payload-read:" + label, Props: append(append([]string{}, props...), "C05"), Pos: p.posStr(fn.Pos()), Func: funcLabel(fn), Nontrivial: true}
 	var reads []*ssa.Call
 	for _, b := range fn.Blocks {
 		for _, ins := range b.Instrs {
